@@ -353,7 +353,7 @@ func TestTargeted(t *testing.T) {
 		Check:      checkTargeted,
 		NonTrivial: func(c targetedCase) bool { return !c.Skipped && c.Depth >= 1 },
 		Classes:    classesTargeted,
-		Quick:      1600, Thorough: 20000,
+		Quick:      1600, Thorough: 15000,
 	})
 	if flags.ProtoLegacy {
 		pbt.S.Note("protolegacy build")
